@@ -35,16 +35,20 @@ type Auditor func(s *SUT, op Op) []Problem
 
 // SUT is the node under test plus the harness's knowledge about it.
 type SUT struct {
-	N         *sn.Node
-	T         *gen.Tree
-	Confirmed map[int]bool
-	Arrival   []int
-	Log       []Op
-	Applied   map[int]bool // blocks ever applied to the state (for C17)
-	Stats     map[string]int
-	Tainted   bool
-	models    map[int]*refmodel.State
-	hn        int
+	N          *sn.Node
+	T          *gen.Tree
+	Confirmed  map[int]bool
+	Arrival    []int
+	Log        []Op
+	Applied    map[int]bool // blocks ever applied to the state (for C17)
+	Stats      map[string]int
+	Tainted    bool
+	models     map[int]*refmodel.State
+	hn         int
+	Predicting bool
+	pending    []Problem
+
+	poolBeforePlay map[string]bool
 }
 
 // NewSUT starts a node at genesis of the tree's chain.
@@ -111,6 +115,17 @@ func (s *SUT) Confirm(i int) Op {
 }
 
 func (s *SUT) Play(i int) Op {
+	hz := ""
+	if s.PlayHazard(i) {
+		hz = ",hazard"
+		s.Stats["play.hazard"]++
+	}
+	s.poolBeforePlay = map[string]bool{}
+	if pool, perr := s.N.State.GetUnconfirmedTx(false); perr == nil {
+		for _, x := range pool {
+			s.poolBeforePlay[fmt.Sprintf("%x", x.Txid)] = true
+		}
+	}
 	err := s.N.State.Play(s.T.Blocks[i].ID)
 	res := "ok"
 	if err != nil {
@@ -118,7 +133,7 @@ func (s *SUT) Play(i int) Op {
 	} else {
 		s.Applied[i] = true
 	}
-	return s.log(Op{Kind: "play", Block: i, Result: res})
+	return s.log(Op{Kind: "play", Block: i, Arg: hz, Result: res})
 }
 
 func (s *SUT) Walk(i int, prune bool) Op {
@@ -185,15 +200,43 @@ func (s *SUT) Submit(i, k int) Op {
 func (s *SUT) SubmitTx(x *pb.Transaction) string {
 	c := sn.CloneTx(x)
 	c.Blockid = nil
+	adm, why := true, ""
+	predicted := false
+	if s.Predicting {
+		var err error
+		adm, why, err = s.Predict(c)
+		predicted = err == nil
+		if predicted {
+			s.Stats["submit.predicted"]++
+		}
+	}
+	res := "ok"
 	ok, err := s.N.State.VerifyTx(c)
 	if err != nil || !ok {
-		return fmt.Sprintf("verify:%v", err)
+		res = fmt.Sprintf("verify:%v", err)
+	} else if err := s.N.State.DoTx(c); err != nil {
+		res = "dotx:" + err.Error()
+	} else {
+		s.Stats["pool.admitted"]++
 	}
-	if err := s.N.State.DoTx(c); err != nil {
-		return "dotx:" + err.Error()
+	if predicted {
+		if res == "ok" && !adm {
+			s.pending = append(s.pending, Problem{Sig: "admission|admitted-inadmissible|submit",
+				Detail: fmt.Sprintf("submitted tx %x admitted although: %s", c.Txid, why)})
+		}
+		if res != "ok" && adm && !strings.Contains(res, "this transaction is in unconfirmed state") {
+			s.pending = append(s.pending, Problem{Sig: "admission|refused-admissible|submit",
+				Detail: fmt.Sprintf("submitted tx %x refused (%s) although every input is current", c.Txid, res)})
+		}
 	}
-	s.Stats["pool.admitted"]++
-	return "ok"
+	return res
+}
+
+// TakeProblems returns (and clears) problems noticed inside operations.
+func (s *SUT) TakeProblems() []Problem {
+	p := s.pending
+	s.pending = nil
+	return p
 }
 
 // poolWithin reports whether every pool transaction is part of block i: the producer
@@ -289,10 +332,12 @@ type StepOpts struct {
 	Pool            bool
 	Mine            bool
 	AllowPlayHazard bool // only the check that owns the finding sets this
+	PredictSubmit   bool // compare every pool submission with the model's prediction (C03)
 }
 
 // Step performs one random legal operation and returns it.
 func (s *SUT) Step(rng *rand.Rand, o StepOpts) Op {
+	s.Predicting = o.PredictSubmit
 	t := s.T
 	tip := s.Tip()
 	var confirmable, playable, minable, walkable, submittable []int
